@@ -43,7 +43,7 @@ def run(rep, tier):
     rep.trusted += ['Coq 8.16.1 kernel', 'extraction + runner/main.ml', 'vlib/stimtext.py (unrolling, fault injection into the spec IR)', 'harness/c18.cc']
     rep.assumptions += ['the matcher\'s bookkeeping is tied by this oracle, not modelled in Coq; tick and coordinate fields are not checked']
     rng = rep.rng()
-    N = 120 if quick else 4000
+    N = 3000 if quick else 20000
     pre = []
     pre_in = []
     for _ in range(N):
